@@ -43,9 +43,9 @@ MC = {
         dict(name="small-full", Pages=[1], LeafCounts=[3], IntCounts=[], SizeClasses=[0, 1, 399, 400], SmallN=3,
              SizePats=["cyc"], DelPats=["alt"], PermPats=["id", "rev", "mid"], IntPerms=["append"], SibOpts=["LR"],
              LsnClasses=["4294967297"], KeyClasses=["wide"], StaleOpts=[False, True], MaxOps=3, MaxUpd=1),
-        dict(name="sequences", Pages=[1, 2, 3], LeafCounts=[1, 4, 9], IntCounts=[2, 290], SizeClasses=[0, 400], SmallN=1,
-             SizePats=["cyc", "all400"], DelPats=["alt"], PermPats=["id", "mid"], IntPerms=["append"], SibOpts=["LR", "--"],
-             LsnClasses=["4294967297"], KeyClasses=["wide"], StaleOpts=[False, True], MaxOps=6, MaxUpd=3),
+        dict(name="sequences", Pages=[1, 2, 3], LeafCounts=[1, 9], IntCounts=[2, 290], SizeClasses=[400], SmallN=1,
+             SizePats=["cyc"], DelPats=["alt"], PermPats=["mid"], IntPerms=["append"], SibOpts=["LR", "--"],
+             LsnClasses=["4294967297"], KeyClasses=["wide"], StaleOpts=[False], MaxOps=6, MaxUpd=3),
     ],
 }
 RANDOM = {
